@@ -5,6 +5,7 @@ import (
 	"fmt"
 	"os"
 	"path/filepath"
+	"runtime"
 	"runtime/debug"
 	"sort"
 	"strconv"
@@ -16,6 +17,11 @@ type propFunc func(c *Ctx)
 var registry = map[string]propFunc{}
 
 func main() {
+	// Page faults are expensive in the sandbox VM and contend across threads: the analysis is
+	// mostly sequential, so a few threads are fastest (measured: 4 procs 3.5 s vs 16 procs 6-16 s).
+	if os.Getenv("GOMAXPROCS") == "" {
+		runtime.GOMAXPROCS(4)
+	}
 	prop := flag.String("property", "", "property id (C01..C20)")
 	tier := flag.String("tier", "quick", "quick|thorough")
 	repo := flag.String("repo", "/repo", "repository root")
